@@ -1031,7 +1031,7 @@ def rule_upper_level_sentinel(ctx, which, units=None):
     "Points must be increasing by x").  Both sibling builders (PGMIndex::build and the CompressedPGMIndex constructor) must
     therefore derive the number of keys of the next level from a value adjusted under a comparison with `sentinel`."""
     obs = []
-    tn = {'pgm': 'pgm::PGMIndex::build', 'compressed': 'pgm::CompressedPGMIndex::CompressedPGMIndex'}[which]
+    tn = {'pgm': 'pgm::PGMIndex::build', 'compressed': 'pgm::CompressedPGMIndex::CompressedPGMIndex', 'eliasfano': 'pgm::EliasFanoPGMIndex::EliasFanoPGMIndex'}[which]
     fs = [f for f in ctx.need(tn, units) if (len(f.params) == 6 if which == 'pgm' else (len(f.params) == 2 and not f.d.get('special')))]
     SEG = ('make_segmentation', 'make_segmentation_par')
 
@@ -1058,7 +1058,13 @@ def rule_upper_level_sentinel(ctx, which, units=None):
             return []
 
         sites = []
-        for c in f.calls():
+        if which == 'eliasfano':
+            # the Elias-Fano structure over the segment keys: sd_vector(first segment, one past the last segment)
+            for i in f.all_ids():
+                nd = f.n(i)
+                if nd['c'] in ('CXXConstructExpr', 'CXXTemporaryObjectExpr', 'CXXFunctionalCastExpr') and 'sd_vector' in str(nd.get('rec')) and len(nd.get('args', [])) == 2 and reachable(f, i):
+                    sites.append((i, nd['args'][1]))
+        for c in (f.calls() if which != 'eliasfano' else ()):
             nd = f.n(c)
             ct = nd.get('ct') or ''
             args = nd.get('args', [])
@@ -1134,6 +1140,11 @@ def rule_upper_level_sentinel(ctx, which, units=None):
                                 if L.n(r_)['ch']:
                                     todo.append((L, L.term(L.n(r_)['ch'][0], inline=False)))
             ok = any(mentions_sentinel(t) for t in seen_terms)
+            if which == 'eliasfano':
+                obs.append(Ob('SENTINEL-EXCLUDED', f, c, 'the range of segment keys coded in the Elias-Fano structure is delimited under a comparison with `sentinel` (with a last key of max - 1 the segment that maps the keys above it starts at the sentinel, and sentinel - first_key + 1 wraps the universe)',
+                              f"end of range `{fmt_term(f.term(cnt_node, inline=False))[:70]}`: " + ('its definition chain tests the sentinel' if ok else
+                              f"{len(seen_terms)} defining terms, none compares with `sentinel`"), OK if ok else VIOLATED, arm='ef-range'))
+                continue
             obs.append(Ob('SENTINEL-EXCLUDED', f, c, 'the number of keys fed to an upper-level segmentation is adjusted under a comparison with `sentinel` (a trailing segment that starts at the sentinel is not a key of the next level)',
                           f"count `{fmt_term(f.term(cnt_node, inline=False))}`: " + ('its definition chain tests the sentinel' if ok else
                           f"{len(seen_terms)} defining terms, none compares with `sentinel`: with last key == max - 1 the closing segment starts at max and its successor wraps around"),
@@ -1373,14 +1384,18 @@ def rule_rebase_agree(ctx, units=None):
             cons = [s_ for s_ in subterms(t) if s_[0] == 'construct' and len(s_[2]) == 2]
             if cons:
                 b0, e0 = cons[0][2]
-                excl = e0[0] == 'call' and e0[1] == 'std::prev' and e0[2][0][0] == 'call' and e0[2][0][1].endswith('::end')
+                # all but the last segment (`prev(end)`), or a prefix `begin + count` (what count excludes is SENTINEL-EXCLUDED's
+                # business: the segments that start at the sentinel)
+                e0s = _strip_cast(e0)
+                excl = (e0s[0] == 'call' and e0s[1] == 'std::prev' and e0s[2][0][0] == 'call' and e0s[2][0][1].endswith('::end')) or \
+                       (e0s[0] == 'op' and e0s[1] == '+' and _strip_cast(e0s[2]) == _strip_cast(b0) and _strip_cast(e0s[3])[0] in ('local', 'cast'))
                 beg = b0[0] == 'call' and b0[1].endswith('::begin')
                 after = sub is not None and g.before(sub, asg[-1]) or (sub is not None and f.block_of(sub) and graph(f).dominates(f.block_of(sub)[0], f.block_of(asg[-1])[0]))
                 # the rebase is in a loop body: the ef assignment must not be reachable before the loop finished
                 after = sub is not None and not graph(f).paths_exist(f.block_of(asg[-1])[0], f.block_of(sub)[0])
                 ok3 = excl and beg and after
                 why3 = f"ef = sd_vector({fmt_term(b0)}, {fmt_term(e0)}); sentinel excluded={excl}; built after the rebase loop={after}"
-        obs.append(Ob('REBASE-AGREE', f, asg[-1] if asg else 0, 'the Elias-Fano structure holds the rebased keys of all segments except the sentinel', why3, OK if ok3 else VIOLATED, arm='ef'))
+        obs.append(Ob('REBASE-AGREE', f, asg[-1] if asg else 0, 'the Elias-Fano structure holds the rebased keys of a prefix of the segments that leaves out the sentinel', why3, OK if ok3 else VIOLATED, arm='ef'))
     return obs
 
 
